@@ -209,6 +209,15 @@ struct SessionsModel : Monitor {
 				// raw downstream data: must be for the session bound to this address and carry its assigned address
 				Bytes out;
 				if (z_uncompress(Bytes(d.data.begin() + 4, d.data.end()), out)) check_routed(out, uid, d.dst, true);
+				// ... and it must go to the address that session is bound to (a frame stamped with Y's user id that is sent to X's
+				// address hands Y's packet to X): the raw counterpart of the DNS-mode clause effect.data_answer
+				auto it = slot.find(uid);
+				if (!no_check_ip && it != slot.end() && it->second.logged_in) {
+					bool ok = same_ip(d.dst, it->second.bound);
+					for (auto &a : it->second.bound_hist) if (same_ip(d.dst, a)) ok = true;
+					w->probes["c04.raw_data_frames"]++;
+					if (!ok) { char b[240]; snprintf(b, sizeof b, "raw data frame for session %d sent to %s, but that session is bound to %s", uid, d.dst.str().c_str(), it->second.bound.str().c_str()); w->S.violate("C04", "routing.raw_wrong_address", b); }
+				}
 			}
 			return;
 		}
@@ -671,6 +680,13 @@ J gen_sessions(uint64_t seed, const J &ov)
 			if (act == "rawlogin") op.set("mode", "good");
 			if (act == "pkt" || act == "rawdata") { op.set("ser", (long long)++ser); op.set("len", (int)r.range(40, 300)); op.set("body", "rnd"); op.set("dst", "srv"); }
 			ops.push(op);
+			// client-to-client packets for this session while it is (probably) in raw mode: the server has to pick the raw
+			// address of the *recipient*; the senders are DNS-mode sessions
+			if (i > 0 && nm > 1 && r.chance(0.35)) {
+				J c = J::obj(); c.set("ref", "abs"); c.set("t", (long long)((t0 + r.uniform() * 0.4) * 1e6)); c.set("op", "mc");
+				std::string from = "m" + std::to_string(r.range(0, nm - 1));
+				if (from != who) { c.set("who", from); c.set("act", "pkt"); c.set("ser", (long long)++ser); c.set("len", (int)r.range(40, 300)); c.set("body", "rnd"); c.set("dst", who); ops.push(c); }
+			}
 		}
 	}
 	// traffic of the successors: upstream packets and downstream packets for whatever address they get
